@@ -159,6 +159,9 @@ Definition deep_level (c : N) : str :=
   | 6 => [35]               (* "#"  *)
   | 7 => [97; 43]           (* "a+" *)
   | 8 => [35; 98]           (* "#b" *)
+  | 10 => [32]              (* " "  (round 8: white space is an ordinary character) *)
+  | 11 => [97; 32]          (* "a " *)
+  | 12 => [9]               (* tab  *)
   | _ => [48]               (* "0"  *)
   end.
 
@@ -265,3 +268,103 @@ Definition nexh_violations (n : nat) (obs : list N) : list nat :=
   diff_indices_lim REPORT_MAX 0 (map nexh_prop_last (strings_upto exh_alpha n)) obs.
 Definition nexh_mismatches (n : nat) (obs : list N) : list nat :=
   diff_indices_lim REPORT_MAX 0 (map nexh_model_last (strings_upto exh_alpha n)) obs.
+
+(* ---------- round 8: third exhaustive space, with the space character in both alphabets
+   (white space is an ordinary character of filters and topics) ---------- *)
+Definition alpha_fw : list N := [47; 43; 35; 97; 32].
+Definition alpha_tw : list N := [47; 97; 32].
+
+Definition sigw_model (fl tl : nat) : list N :=
+  let topics := strings_upto alpha_tw tl in
+  map (filter_signature topics) (strings_upto alpha_fw fl).
+
+Definition sigw_mismatches (fl tl : nat) (obs : list N) : list nat :=
+  diff_indices_lim REPORT_MAX 0 (sigw_model fl tl) obs.
+
+(* ---------- round 8: handlers that register and dispatch while being served ---------- *)
+
+Fixpoint progs_of (l : list (nat * (str * list hstep))) (h : nat) : hprog :=
+  match l with
+  | [] => None
+  | (h', p) :: r => if Nat.eqb h h' then Some p else progs_of r h
+  end.
+
+Definition titem_eqb (a b : titem) : bool :=
+  match a, b with
+  | TInv d h, TInv d' h' => Nat.eqb d d' && Nat.eqb h h'
+  | TReg d x, TReg d' x' => Nat.eqb d d' && Bool.eqb x x'
+  | _, _ => false
+  end.
+
+Definition rev_eqb (a b : rmux_ev) : bool :=
+  match a, b with
+  | RvHandle x, RvHandle y => Bool.eqb x y
+  | RvServe x, RvServe y => list_eqb titem_eqb x y
+  | _, _ => false                      (* RvStuck (a call that did not return) equals nothing *)
+  end.
+
+Definition reg_case := (list (nat * (str * list hstep)) * nat * list mux_op * list rmux_ev)%type.
+
+(* observed history = what the spec determines (C14_mux_registering_decided) *)
+Definition reg_ok (c : reg_case) : bool :=
+  let '(pl, fuel, ops, evs) := c in
+  list_eqb rev_eqb evs (rmuxes_run (progs_of pl) fuel muxes_empty ops).
+
+Definition reg_violations (cs : list reg_case) : list nat :=
+  indices_where (fun c => negb (reg_ok c)) cs.
+
+(* exhaustive: 7 operations on 2 instances; handlers registered by a handler of the operation at
+   position p are numbered 8+p and have no program.  Nesting bound 1 (keeps the codes small).  c14c.go: c14RexhOp. *)
+Definition rexh_op (pos : nat) (c : N) : mux_op :=
+  match c with
+  | 0 => OpHandle 0 [97] pos     (* m0.Handle("a"); given "a": m0.Handle("a", h 8+p) *)
+  | 1 => OpHandle 0 [43] pos     (* m0.Handle("+") *)
+  | 2 => OpHandle 0 [97] pos     (* m0.Handle("a"); given "a": m0.Handle("+", h 8+p); m0.Serve("a") *)
+  | 3 => OpServe 0 [97]          (* m0.Serve("a") *)
+  | 4 => OpServe 0 [98]          (* m0.Serve("b") *)
+  | 5 => OpHandle 1 [35] pos     (* m1.Handle("#"); given "a": m0.Handle("a", h 8+p)  (child registers on parent) *)
+  | _ => OpServe 1 [97]          (* m1.Serve("a") *)
+  end.
+
+Definition rexh_prog (pos : nat) (c : N) : hprog :=
+  match c with
+  | 0 => Some ([97], [HsHandle 0 [97] (8 + pos)])
+  | 2 => Some ([97], [HsHandle 0 [43] (8 + pos); HsServe 0 [97]])
+  | 5 => Some ([97], [HsHandle 0 [97] (8 + pos)])
+  | _ => None
+  end.
+
+Fixpoint rexh_ops_from (pos : nat) (cs : list N) : list mux_op :=
+  match cs with
+  | [] => []
+  | c :: r => rexh_op pos c :: rexh_ops_from (S pos) r
+  end.
+
+Definition rexh_progs (cs : list N) (h : nat) : hprog :=
+  match nth_error cs h with Some c => rexh_prog h c | None => None end.
+
+Definition REXH_FUEL : nat := 1.
+
+(* one number per event; 0 is reserved for "the call did not return" / the empty history *)
+Definition titem_code (x : titem) : N :=
+  match x with
+  | TInv d h => N.of_nat (1 + d * 16 + h)            (* h < 16, d <= 2: 1..48 *)
+  | TReg d b => N.of_nat (49 + d * 2 + (if b then 1 else 0))
+  end.
+
+Definition rev_code (e : rmux_ev) : N :=
+  match e with
+  | RvHandle false => 1
+  | RvHandle true => 2
+  | RvServe tr => 3 + 4 * fold_right (fun x acc => titem_code x + 64 * acc) 0 tr
+  | RvStuck => 0
+  end.
+
+Definition rexh_last (cs : list N) : N :=
+  match rev (rmuxes_run (rexh_progs cs) REXH_FUEL muxes_empty (rexh_ops_from 0 cs)) with
+  | [] => 0
+  | e :: _ => rev_code e
+  end.
+
+Definition rexh_violations (n : nat) (obs : list N) : list nat :=
+  diff_indices_lim REPORT_MAX 0 (map rexh_last (strings_upto exh_alpha n)) obs.
